@@ -123,6 +123,10 @@ func (csm *conditionalStorageMiddleware) ListBuckets(ctx context.Context) ([]sto
 	allBuckets = append(allBuckets, buckets...)
 
 	slices.SortFunc(allBuckets, func(a storage.Bucket, b storage.Bucket) int { return strings.Compare(a.Name.String(), b.Name.String()) })
+	// Several bucket names may be routed to the same storage (and a routed
+	// storage may be the default one), so the same bucket can be reported more
+	// than once.
+	allBuckets = slices.CompactFunc(allBuckets, func(a storage.Bucket, b storage.Bucket) bool { return a.Name.String() == b.Name.String() })
 	return allBuckets, nil
 }
 
